@@ -8,6 +8,7 @@ import Golib.Gen.C19
 import Golib.Cal.Helper
 import Golib.Cal.DateFormat
 import Golib.Cal.PadIR
+import Golib.Cal.LoopIR
 
 namespace C19Gen
 open Cal
@@ -111,6 +112,145 @@ theorem gen_bodies (dateOf : Nat → List Char) (el : Nat) :
     Gen.C19.chain_datetime, Gen.C19.outs_datetime, Gen.C19.chain_timestamp, Gen.C19.outs_timestamp,
     Gen.C19.chain_logtime, Gen.C19.outs_logtime, Gen.C19.chain_ymdhms, Gen.C19.outs_ymdhms,
     Gen.C19.chain_hhmmss, Gen.C19.outs_hhmmss, Gen.C19.chain_hhmm, Gen.C19.outs_hhmm, a, b, c, d]
+
+
+/-! ### the rune loops of DateFormat, interpreted
+
+  `format` and `Parse` are transcribed statement by statement (`Gen.C19.formatBody`, `parseBody`, `parseFills`;
+  semantics in Golib.Cal.LoopIR) and proved equal to the CodeModel **for all patterns, inputs and states**.
+  This is where "every rune that is not one of y m d H M S s is a literal" is tied to the source: a loop body
+  that gives some other rune a meaning (a quote that toggles a flag, an escape, a `continue`) contains a statement
+  the semantics has no meaning for, or a clause the model does not have, and these obligations no longer check.
+  Re-ordering the clauses, renaming variables or constants keeps them green. -/
+
+/-- one pass of the loop body of `format` as it stands in the source — the single `switch ch` with its seven
+    field clauses and the default clause — appends, for EVERY rune, what the model's `fmtRune` appends -/
+theorem gen_format_body (f : Fields) (c : Char) : evalFmtBody Gen.C19.formatBody f c = some (fmtRune f c) := by
+  by_cases hy : c = 'y'
+  · subst hy; simp [Gen.C19.formatBody, evalFmtBody, runeCase, FmtAct.eval, TimeSel.eval, fmtRune, letterWidth, Fields.get]
+  by_cases hm : c = 'm'
+  · subst hm; simp [Gen.C19.formatBody, evalFmtBody, runeCase, FmtAct.eval, TimeSel.eval, fmtRune, letterWidth, Fields.get]
+  by_cases hd : c = 'd'
+  · subst hd; simp [Gen.C19.formatBody, evalFmtBody, runeCase, FmtAct.eval, TimeSel.eval, fmtRune, letterWidth, Fields.get]
+  by_cases hH : c = 'H'
+  · subst hH; simp [Gen.C19.formatBody, evalFmtBody, runeCase, FmtAct.eval, TimeSel.eval, fmtRune, letterWidth, Fields.get]
+  by_cases hM : c = 'M'
+  · subst hM; simp [Gen.C19.formatBody, evalFmtBody, runeCase, FmtAct.eval, TimeSel.eval, fmtRune, letterWidth, Fields.get]
+  by_cases hS : c = 'S'
+  · subst hS; simp [Gen.C19.formatBody, evalFmtBody, runeCase, FmtAct.eval, TimeSel.eval, fmtRune, letterWidth, Fields.get]
+  by_cases hs : c = 's'
+  · subst hs; simp [Gen.C19.formatBody, evalFmtBody, runeCase, FmtAct.eval, TimeSel.eval, fmtRune, letterWidth, Fields.get]
+  have e1 := toNat_beq_of_ne c 'y' hy
+  have e2 := toNat_beq_of_ne c 'm' hm
+  have e3 := toNat_beq_of_ne c 'd' hd
+  have e4 := toNat_beq_of_ne c 'H' hH
+  have e5 := toNat_beq_of_ne c 'M' hM
+  have e6 := toNat_beq_of_ne c 'S' hS
+  have e7 := toNat_beq_of_ne c 's' hs
+  simp only [Char.reduceToNat] at e1 e2 e3 e4 e5 e6 e7
+  simp [Gen.C19.formatBody, evalFmtBody, runeCase, FmtAct.eval, fmtRune, letterWidth, hy, hm, hd, hH, hM, hS, hs, List.find?, e1, e2, e3, e4, e5, e6, e7]
+
+
+/-- **`format` is the model's `format`**: the function is `ret := this.formatStr; var buf bytes.Buffer; for _, ch := range ret { … };
+    return buf.String()` and its loop, run on any pattern and any field values, writes `Cal.format pat f` -/
+theorem gen_format_loop (pat : List Char) (f : Fields) :
+    Gen.C19.formatFrame = ["alias", "buffer", "loop", "return-buffer"] ∧ Gen.C19.formatRangeOver = "recv.formatStr" ∧
+    evalFormatLoop Gen.C19.formatBody pat f = some (format pat f) :=
+  ⟨by decide, by decide, evalFormatLoop_eq _ gen_format_body pat f⟩
+
+/-- one pass of the loop body of `Parse` as it stands in the source (`if i >= sz { break }`, then the `switch ch`)
+    is one step of the model's `parseLoopZ`, for every rune, index, remaining input and field map -/
+theorem gen_parse_body (sz i : Nat) (c : Char) (inp : List Char) (p : PStateZ) :
+    evalParseBody Gen.C19.parseBody sz i c inp p = modelStep sz i c inp p := by
+  by_cases hi : i ≥ sz
+  · simp [Gen.C19.parseBody, evalParseBody, modelStep, hi]
+  by_cases hy : c = 'y'
+  · subst hy; simp only [Gen.C19.parseBody, evalParseBody, modelStep, hi, if_false, runeCase, ParseAct.eval, letterWidth, List.find?, Char.reduceToNat]
+    simp
+    generalize toIntZ inp 4 = o
+    rcases o with _ | ⟨v, rest⟩ <;> rfl
+  by_cases hm : c = 'm'
+  · subst hm; simp only [Gen.C19.parseBody, evalParseBody, modelStep, hi, if_false, runeCase, ParseAct.eval, letterWidth, List.find?, Char.reduceToNat]
+    simp
+    generalize toIntZ inp 2 = o
+    rcases o with _ | ⟨v, rest⟩ <;> rfl
+  by_cases hd : c = 'd'
+  · subst hd; simp only [Gen.C19.parseBody, evalParseBody, modelStep, hi, if_false, runeCase, ParseAct.eval, letterWidth, List.find?, Char.reduceToNat]
+    simp
+    generalize toIntZ inp 2 = o
+    rcases o with _ | ⟨v, rest⟩ <;> rfl
+  by_cases hH : c = 'H'
+  · subst hH; simp only [Gen.C19.parseBody, evalParseBody, modelStep, hi, if_false, runeCase, ParseAct.eval, letterWidth, List.find?, Char.reduceToNat]
+    simp
+    generalize toIntZ inp 2 = o
+    rcases o with _ | ⟨v, rest⟩ <;> rfl
+  by_cases hM : c = 'M'
+  · subst hM; simp only [Gen.C19.parseBody, evalParseBody, modelStep, hi, if_false, runeCase, ParseAct.eval, letterWidth, List.find?, Char.reduceToNat]
+    simp
+    generalize toIntZ inp 2 = o
+    rcases o with _ | ⟨v, rest⟩ <;> rfl
+  by_cases hS : c = 'S'
+  · subst hS; simp only [Gen.C19.parseBody, evalParseBody, modelStep, hi, if_false, runeCase, ParseAct.eval, letterWidth, List.find?, Char.reduceToNat]
+    simp
+    generalize toIntZ inp 2 = o
+    rcases o with _ | ⟨v, rest⟩ <;> rfl
+  by_cases hs : c = 's'
+  · subst hs; simp only [Gen.C19.parseBody, evalParseBody, modelStep, hi, if_false, runeCase, ParseAct.eval, letterWidth, List.find?, Char.reduceToNat]
+    simp
+    generalize toIntZ inp 3 = o
+    rcases o with _ | ⟨v, rest⟩ <;> rfl
+  have e1 := toNat_beq_of_ne c 'y' hy
+  have e2 := toNat_beq_of_ne c 'm' hm
+  have e3 := toNat_beq_of_ne c 'd' hd
+  have e4 := toNat_beq_of_ne c 'H' hH
+  have e5 := toNat_beq_of_ne c 'M' hM
+  have e6 := toNat_beq_of_ne c 'S' hS
+  have e7 := toNat_beq_of_ne c 's' hs
+  simp only [Char.reduceToNat] at e1 e2 e3 e4 e5 e6 e7
+  simp [Gen.C19.parseBody, evalParseBody, modelStep, hi, runeCase, ParseAct.eval, letterWidth, hy, hm, hd, hH, hM, hS, hs, List.find?, e1, e2, e3, e4, e5, e6, e7]
+
+
+/-- **the loop of `Parse` is the model's `parseLoopZ`** on every pattern, input, start index and field map
+    (so also on a reused object), and the function consists of the reader/size/clock initialisers, that loop,
+    the seven fill statements, `time.Date`, the division to milliseconds and the return — nothing else -/
+theorem gen_parse_loop (sz : Nat) (pat : List Char) (i : Nat) (inp : List Char) (p : PStateZ) :
+    Gen.C19.parseFrame = ["reader", "sz", "now", "loop", "fill", "fill", "fill", "fill", "fill", "fill", "fill",
+      "date", "millis", "return-millis"] ∧ Gen.C19.parseRangeOver = "recv.formatStr" ∧
+    evalParseLoop Gen.C19.parseBody sz pat i inp p = some (parseLoopZ sz pat i inp p) :=
+  ⟨by decide, by decide, evalParseLoop_eq _ sz (gen_parse_body sz) pat i inp p⟩
+
+/-- the seven `if _, ok := this.date[K]; !ok { this.date[K] = now.X() }` statements, run in source order, are
+    the model's `PStateZ.fill` — for every field map and every clock reading -/
+theorem gen_parse_fills (p : PStateZ) (now : Fields) : evalFills Gen.C19.parseFills p now = some (p.fill now) := by
+  rcases p with ⟨y, m, d, H, M, S, s⟩
+  rcases y with _ | y <;> rcases m with _ | m <;> rcases d with _ | d <;> rcases H with _ | H <;>
+  rcases M with _ | M <;> rcases S with _ | S <;> rcases s with _ | s <;>
+  simp [Gen.C19.parseFills, evalFills, TimeSel.eval, letterWidth, PStateZ.getc, PStateZ.set, PStateZ.fill]
+
+/-- **one `Parse` call, as transcribed, is the model's `parseObj`**: loop, then (unless a field clause returned an
+    error) the fills and `time.Date(…)/10⁶` of the filled map (argument order and factors: `gen_date_args`) -/
+theorem gen_parse_obj (st : PStateZ) (pat : List Char) (now : Fields) (inp : List Char) :
+    ((evalParseLoop Gen.C19.parseBody (utf8Len inp) pat 0 inp st).bind fun r =>
+      if r.2 then (evalFills Gen.C19.parseFills r.1 now).map fun q => (q, some (dateToMsZ q.fields))
+      else some (r.1, none)) = some (parseObj st pat now inp) := by
+  rw [(gen_parse_loop (utf8Len inp) pat 0 inp st).2.2]
+  simp only [Option.bind_some, parseObj]
+  split
+  · simp [gen_parse_fills]
+  · rfl
+
+/-- the two exported entries are the unexported `format` applied to the argument (`FormatTime`) and to the
+    clock reading `time.Now()` (`Format`) — nothing in between -/
+theorem gen_format_entries : Gen.C19.formatEntries =
+    [("Format", "recv.format(time.Now())"), ("FormatTime", "recv.format(#0)")] := by decide
+
+/-- the semantics gives no meaning to a body with a statement it does not know: the loop of the quoted-literal
+    variant (`if ch == '\'' { quoted = !quoted; continue }; if quoted { … ; continue }; switch ch { … }`) is
+    transcribed as `[.other, .other, .switchCh …]`, about which nothing of the above can be proved -/
+example (f : Fields) : evalFormatLoop (.other :: .other :: Gen.C19.formatBody) ['y'] f = none := rfl
+example : evalParseLoop (.breakIfIdxGeSz :: .other :: Gen.C19.parseBody) 5 ['y'] 0 ['2'] {} = none := rfl
+/-- and it is not vacuous on the real body -/
+example : evalFormatLoop Gen.C19.formatBody "y-m'd".toList ⟨2024, 2, 29, 7, 10, 5, 123⟩ = some "2024-02'29".toList := by decide
 
 /-- format and Parse use the same seven letters with the model's widths -/
 theorem gen_widths : Gen.C19.formatWidths = Gen.C19.parseWidths ∧ Gen.C19.formatWidths.length = 7 ∧
